@@ -87,6 +87,9 @@ fn table() -> Vec<Entry> {
                 outside_fwd: vec![], outside_inv: vec![[0., 0., 0.5, 179.7], [10., -60., -10.2, 119.9]], invertible: true },
         // one-way operators
         Entry { def: "curvature prime", writes: 0b0001, deps: [0b1, 0, 0, 0], deps_inv: None, inside: vec![[55., 12., 0., 0.], [-33., 100., 5., 6.]], outside_fwd: vec![], outside_inv: vec![], invertible: false },
+        // ... and pipelines containing one: zero and data untouched in the inverse direction
+        Entry { def: "addone | curvature prime", writes: 0b0001, deps: [0b1, 0, 0, 0], deps_inv: None, inside: vec![[55., 12., 0., 0.], [-33., 100., 5., 6.]], outside_fwd: vec![], outside_inv: vec![], invertible: false },
+        Entry { def: "gravity grs80 | addone | addone inv", writes: 0b0001, deps: [0b1, 0b1, 0, 0], deps_inv: None, inside: vec![[55., 100., 0., 0.], [-33., 0., 5., 6.]], outside_fwd: vec![], outside_inv: vec![], invertible: false },
         Entry { def: "gravity grs80", writes: 0b0001, deps: [0b1, 0b1, 0, 0], deps_inv: None, inside: vec![[55., 100., 0., 0.], [-33., 0., 5., 6.]], outside_fwd: vec![], outside_inv: vec![], invertible: false },
     ]
 }
